@@ -5,15 +5,18 @@ import json, os, shutil, subprocess, sys
 out, k, sid, caught = sys.argv[1:5]
 note = sys.argv[5] if len(sys.argv) > 5 else ''
 patch, demo, meta = f'{out}/patch{k}.diff', f'{out}/demo{k}.py', f'{out}/meta{k}.json'
+M = '/var/tmp/vw/mutrepo'   # scratch worktree of /repo's HEAD (see try_mutant.sh); /repo itself stays quiet
 env = dict(os.environ, PYTHONPATH='/repo', PYTHONDONTWRITEBYTECODE='1')
+envm = dict(env, PYTHONPATH=M)
 env.pop('PYTABLEAUX_VERIF', None)
-assert subprocess.run(['git', '-C', '/repo', 'status', '--porcelain'], capture_output=True, text=True).stdout == ''
+subprocess.run(['git', '-C', M, 'checkout', '-q', '--detach', subprocess.run(['git','-C','/repo','rev-parse','HEAD'],capture_output=True,text=True).stdout.strip()], check=True)
+subprocess.run(['git', '-C', M, 'checkout', '--', '.'], check=True)
 r0 = subprocess.run(['/venv/bin/python', demo], env=env, capture_output=True, text=True, timeout=900)
-subprocess.run(['git', '-C', '/repo', 'apply', patch], check=True)
+subprocess.run(['git', '-C', M, 'apply', patch], check=True)
 try:
-    r1 = subprocess.run(['/venv/bin/python', demo], env=env, capture_output=True, text=True, timeout=900)
+    r1 = subprocess.run(['/venv/bin/python', demo], env=envm, capture_output=True, text=True, timeout=900)
 finally:
-    subprocess.run(['git', '-C', '/repo', 'checkout', '--', '.'], check=True)
+    subprocess.run(['git', '-C', M, 'checkout', '--', '.'], check=True)
 print('demo unchanged rc', r0.returncode, '| patched rc', r1.returncode)
 if r0.returncode != 0 or r1.returncode == 0:
     print('NOT CONFIRMED'); print(r0.stdout[-500:], r0.stderr[-500:], r1.stdout[-500:]); sys.exit(1)
@@ -23,7 +26,7 @@ shutil.copy(patch, f'{d}/patch.diff'); shutil.copy(demo, f'{d}/demo.py')
 m = json.load(open(meta))
 m.update(seeded_id=sid, confirmed=dict(demo_unchanged_rc=r0.returncode, demo_patched_rc=r1.returncode,
          demo_output_patched=(r1.stdout + r1.stderr)[-600:], suite=m.get('test_result'),
-         ran='git -C /repo apply patch.diff; PYTHONPATH=/repo /venv/bin/python demo.py; ./check <id> --tier quick; git -C /repo checkout -- .'),
+         ran='patch.diff applied to a scratch worktree of /repo HEAD; PYTHONPATH=<worktree> /venv/bin/python demo.py; VERIF_REPO=<worktree> ./check <id> --tier quick (tools/try_mutant.sh); equivalent to git -C /repo apply patch.diff; ./check <id>; git -C /repo checkout -- .'),
          caught_by=[c for c in caught.split(',') if c], note=note)
 json.dump(m, open(f'{d}/meta.json', 'w'), indent=1)
 print('kept', d)
